@@ -61,6 +61,7 @@ CONSTANTS Node,          \* node ids
           FixD3,         \* TRUE = canChangeConfig requires an own-term commit (repaired)
           FixD14,        \* TRUE = round.begin resets the end time of the previous round (repaired)
           FixD20,        \* TRUE = a snapshot is labelled with the configuration in force at the commit index (repaired)
+          FixD22,        \* TRUE = a stale install-snapshot request does not replace newer state (repaired)
           FixD19,        \* TRUE = a locally taken snapshot never replaces a newer installed one (repaired)
           FixD13,        \* TRUE = a follower flushes its log before every successful append reply (repaired)
           FixD5,         \* TRUE = onSnapshotTaken keeps leader.removeLTE >= log.PrevIndex (repaired)
@@ -637,7 +638,10 @@ OnInstallSnapRequest(s, req) ==
     ELSE
     LET s1 == [SetTerm(s, Max(req.term, s.term)) EXCEPT !.state = "F", !.leader = req.src]
         s2 == [s1 EXCEPT !.snapIdx = req.idx, !.snapTerm = req.sterm, !.snapCfg = req.cfg, !.snapCmds = req.cmds]
-    IN IF HasIdx(s2, req.idx) /\ TermAt(s2, req.idx) = req.sterm
+    IN \* (FixD22: a request delivered late, for a snapshot the node's commit index already covers, is answered without
+       \*  installing anything; the code as found discarded the committed entries that follow the snapshot index)
+       IF FixD22 /\ req.idx <= s1.commit THEN [s |-> s1, result |-> "success"]
+       ELSE IF HasIdx(s2, req.idx) /\ TermAt(s2, req.idx) = req.sterm
        THEN [s |-> CompactLog(s2, req.idx), result |-> "success"]
        ELSE LET s3 == [s2 EXCEPT !.log = << >>, !.logPrev = req.idx, !.bnds = {req.idx}, !.synced = req.idx,
                                  !.fsmQ = Append(@, [kind |-> "restore"]), !.commit = req.idx]
